@@ -98,7 +98,9 @@ def mkidx(spec):
         _IDX_WATCH.append((o, list(spec['v'])))
         return o
     if k == 'imat':
-        o = matrix(spec['v'], (len(spec['v']), 1), 'i')
+        # the size of an index matrix is ignored (manual): any r x c with r*c entries
+        sh = tuple(spec['sh']) if spec.get('sh') else (len(spec['v']), 1)
+        o = matrix(spec['v'], sh, 'i')
         _IDX_WATCH.append((o, list(spec['v'])))
         return o
     raise ValueError(k)
@@ -173,7 +175,14 @@ def gen_index(rng, length, for_assign=True):
     vals = [b - length if rng.random() < 0.3 else b for b in base]
     if rng.random() < 0.05 and vals:
         vals[rng.randrange(len(vals))] = rng.choice([length, -length - 1])
-    return {'k': 'list' if r < 0.8 else 'imat', 'v': vals}
+    if r < 0.8:
+        return {'k': 'list', 'v': vals}
+    out = {'k': 'imat', 'v': vals}
+    if vals and rng.random() < 0.5:
+        divs = [a for a in range(1, len(vals) + 1) if len(vals) % a == 0]
+        a = rng.choice(divs)
+        out['sh'] = [a, len(vals) // a]
+    return out
 
 
 # ----------------------------------------------------------------------------- the world
